@@ -158,6 +158,32 @@ def exc_name(exc):
     return type(exc).__name__
 
 
+class RealCodeTimeout(Exception):
+    pass
+
+
+class time_limit:
+    """watchdog for one call into the real code (main thread): a loop that no longer terminates becomes a reported
+    violation instead of a hanging check"""
+
+    def __init__(self, seconds):
+        self.seconds = seconds
+
+    def _fire(self, signum, frame):
+        raise RealCodeTimeout()
+
+    def __enter__(self):
+        import signal
+        self._old = signal.signal(signal.SIGALRM, self._fire)
+        signal.setitimer(signal.ITIMER_REAL, self.seconds)
+
+    def __exit__(self, *exc):
+        import signal
+        signal.setitimer(signal.ITIMER_REAL, 0)
+        signal.signal(signal.SIGALRM, self._old)
+        return False
+
+
 def irreducible(p, d):
     """modulus the library itself would pick (find_irreducible), as coefficient list"""
     m = finfields.find_irreducible(p, d)
